@@ -12,9 +12,18 @@ import CrCube.Model.Shim
 namespace CrCube.ShimSpec
 open CrCube.Shim
 
-/-- the four spellings of an item -/
-def spellings (it : Item) : List Ref :=
-  [.str it.alias, .str it.subvarId, .int it.eid, .str (decStr it.eid)]
+/-- the sub-variable-id spelling exists only on dimensions whose elements ALL carry an id -/
+def svSpell (d : Dim) (it : Item) : List Ref := if d.noSubvarIds then [] else [.str it.subvarId]
+
+/-- the spellings of an item: alias, int element id, decimal element id, and its sub-variable id -/
+def spellings (d : Dim) (it : Item) : List Ref :=
+  [.str it.alias, .int it.eid, .str (decStr it.eid)] ++ svSpell d it
+
+theorem mem_spellings {d : Dim} {it : Item} {r : Ref} :
+    r ∈ spellings d it ↔ (r = .str it.alias ∨ r = .int it.eid ∨ r = .str (decStr it.eid) ∨
+                           (d.noSubvarIds = false ∧ r = .str it.subvarId)) := by
+  unfold spellings svSpell
+  cases h : d.noSubvarIds <;> simp
 
 /-- the number a reference writes, if it writes one canonically: an int, or the decimal
     string of an int (`"7"`, `"-1"`; NOT `" 7"`, `"07"`, `"+7"`, `"1_0"`: the statement says
@@ -40,7 +49,7 @@ def positionOf (d : Dim) (r : Ref) : Option Nat :=
 /-- does reference `r` denote the item at index `k`, according to the statement? -/
 def denotesAt (d : Dim) (r : Ref) (k : Nat) : Bool :=
   match d.items[k]? with
-  | some it => decide (r ∈ spellings it) || (positionOf d r == some k)
+  | some it => decide (r ∈ spellings d it) || (positionOf d r == some k)
   | none => false
 
 /-- all items a reference denotes -/
@@ -61,21 +70,28 @@ def resolve (d : Dim) (r : Ref) : SpecRes :=
   | [] => if nonCanonicalNumber r then .unspecified else .nothing
   | _ => .ambiguous
 
+def svStr (d : Dim) (it : Item) : List String := if d.noSubvarIds then [] else [it.subvarId]
+
 /-- the strings that spell an item -/
-def strs (it : Item) : List String := [it.alias, it.subvarId, decStr it.eid]
+def strs (d : Dim) (it : Item) : List String := [it.alias, decStr it.eid] ++ svStr d it
+
+theorem mem_strs {d : Dim} {it : Item} {s : String} :
+    s ∈ strs d it ↔ (s = it.alias ∨ s = decStr it.eid ∨ (d.noSubvarIds = false ∧ s = it.subvarId)) := by
+  unfold strs svStr
+  cases h : d.noSubvarIds <;> simp
 
 def item (d : Dim) (i : Nat) : Item := d.items.getD i default
 
 /-- items `i ≠ j` share no spelling: no string spells both, and their element ids differ -/
 def PairOK (d : Dim) (i j : Nat) : Prop :=
-  i ≠ j → (∀ s ∈ strs (item d i), s ∉ strs (item d j)) ∧ (item d i).eid ≠ (item d j).eid
+  i ≠ j → (∀ s ∈ strs d (item d i), s ∉ strs d (item d j)) ∧ (item d i).eid ≠ (item d j).eid
 
 instance (d : Dim) (i j : Nat) : Decidable (PairOK d i j) := by
   unfold PairOK; exact inferInstance
 
 /-- the alias / sub-variable id of item `i` does not read as the POSITION of another item -/
 def PosOK (d : Dim) (i : Nat) : Prop :=
-  ∀ s ∈ [(item d i).alias, (item d i).subvarId],
+  ∀ s ∈ [(item d i).alias] ++ svStr d (item d i),
     positionOf d (.str s) = none ∨ positionOf d (.str s) = some i
 
 instance (d : Dim) (i : Nat) : Decidable (PosOK d i) := by
